@@ -45,6 +45,37 @@ def _blk(x):
     return {'k': 'Block', 'stmts': [], 'expr': x, 'ty': x.get('ty')}
 
 
+def _value(b):
+    """the value expression of a statement-free block"""
+    from facts import peel
+    b = peel(b)
+    while b.get('k') == 'Block' and not b.get('stmts') and 'expr' in b:
+        b = peel(b['expr'])
+    return b
+
+
+def _if_some(pat, recv, then, els, ty, sp, depth=0):
+    """`if let Some(pat) = recv { then } else { els }`; when recv is itself a conditional Option
+    (`if c { A } else { None }`, the expansion of an inner combinator) the test is pushed into its
+    branches: a `None` branch goes to `els` directly, so a chain of combinators becomes nested ifs"""
+    from facts import peel
+    r = _value(recv)
+    if depth < 6 and r.get('k') == 'If' and len(r.get('ch', [])) == 3:
+        def branch(b):
+            v = _value(b)
+            if v.get('k') == 'Block':
+                return None
+            if v.get('k') == 'Path' and str(v.get('def', '')).endswith('None'):
+                return _blk(els)
+            return _blk(_if_some(pat, v, then, els, ty, sp, depth + 1))
+        b1, b2 = branch(r['ch'][1]), branch(r['ch'][2])
+        if b1 is not None and b2 is not None:
+            return {'k': 'If', 'ch': [r['ch'][0], b1, b2], 'ty': ty, 'sp': sp}
+    le = {'k': 'LetExpr', 'pat': {'k': 'TupleStruct', 'def': 'std::option::Option::Some', 'ch': [pat]},
+          'ch': [recv], 'ty': 'bool'}
+    return {'k': 'If', 'ch': [le, _blk(then), _blk(els)], 'ty': ty, 'sp': sp}
+
+
 def _apply_fn(f, ty=None):
     """(pattern, body) such that `f(x)` is `body` with `x` bound by `pattern`"""
     from facts import peel
@@ -104,9 +135,7 @@ def expand_options(e, top=True):
             else:
                 els = _thunk(out['ch'][1])
             if els is not None:
-                le = {'k': 'LetExpr', 'pat': {'k': 'TupleStruct', 'def': 'std::option::Option::Some', 'ch': [pat]},
-                      'ch': [recv], 'ty': 'bool'}
-                return {'k': 'If', 'ch': [le, _blk(then), _blk(els)], 'ty': out.get('ty'), 'sp': out.get('sp')}
+                return _if_some(pat, recv, then, els, out.get('ty'), out.get('sp'))
     if k == 'Block' and top and (out.get('ty') or '').startswith('std::option::Option'):
         stmts = out.get('stmts', [])
         for i, st in enumerate(stmts):
